@@ -677,7 +677,19 @@ def k5_cache_invalidation(ctx) -> None:
             ctx.violation("K5", st, "pruned dictionary recomputed/stored without the `is None` cache test")
             continue
         v = st.value
+        # the classes marked verified are the keys of the dictionary that was stored as pruned
+        marks = [l for l in walk_local(f) if isinstance(l, ast.For) and any(isinstance(c, ast.Call) and norm(c.func) == "self.equivdb.set_verified" for c in walk_local(l))]
+        for l in marks:
+            it = l.iter.func.value if isinstance(l.iter, ast.Call) and isinstance(l.iter.func, ast.Attribute) and l.iter.func.attr == "keys" else l.iter
+            src = norm(it)
+            if src == "self._pruned_dict" or (isinstance(v, ast.Name) and src == v.id):
+                ctx.ok("K5", "classes are marked verified from the keys of the dictionary stored as pruned")
+            else:
+                ctx.violation("K5", l, f"classes are marked verified from the keys of `{src}`, which is not the dictionary stored as pruned (`{norm(v)[:60]}`): where pruning "
+                              "returns a new dictionary (iterative mode) the unpruned classes are marked verified and are never expanded again")
         if not isinstance(v, ast.Name):
+            if ctx.violations:
+                continue
             raise AnalysisError("K5: pruned_dict stores a non-name expression")
         vals = [d[1] for d in defs.get(v.id, []) if d[1] is not None]
         fresh = any(isinstance(x, ast.Call) and norm(x.func) == "self.rules_up_to_equivalence" for x in vals)
@@ -969,6 +981,46 @@ def k6_one_way_table(ctx, K: Kinds) -> None:
                     ctx.violation("K6", c, f"the {which} stored in the one-way adjacency table is not normalised to its current representative "
                                   "(self[...]): after a later merge, cycle detection walks stale vertices and rules_up_to_equivalence "
                                   "collapses the wrong classes")
+        # a table built by a dict comprehension / dict display assigns each key once per stored vertex: colliding representatives overwrite
+        if mname == "get_one_way_vertices":
+            for st in walk_local(f):
+                tv = st.value if isinstance(st, (ast.Assign, ast.AnnAssign)) else None
+                tg = (st.targets if isinstance(st, ast.Assign) else [st.target]) if tv is not None else []
+                if tv is None or not any(norm(t) in tables for t in tg):
+                    continue
+                for dc in [x for x in ast.walk(tv) if isinstance(x, ast.DictComp)]:
+                    if "self._one_way_vertices" in norm(dc.generators[0].iter):
+                        n += 1
+                        ctx.violation("K6", dc, f"the new one-way table is a dict comprehension keyed by `{norm(dc.key)}`: two stored vertices that now share a representative "
+                                      "collide on that key and the later one's edge set replaces the earlier one's (the sets must be merged)")
+        # the same with a whole batch: table[rep].update(<element> for end in ends if ...)
+        for c in walk_local(f):
+            if not (isinstance(c, ast.Call) and isinstance(c.func, ast.Attribute) and c.func.attr == "update" and isinstance(c.func.value, ast.Subscript)
+                    and norm(c.func.value.value) in tables and len(c.args) == 1):
+                continue
+            n += 1
+            a = c.args[0]
+            kk = K.kind(c.func.value.slice, f)
+            if isinstance(a, (ast.GeneratorExp, ast.ListComp, ast.SetComp)) and len(a.generators) == 1:
+                elt = a.elt
+                tvar = norm(a.generators[0].target)
+                kv = K.kind(elt, f) if norm(elt) != tvar else "raw"     # the loop variable ranges over what was stored: labels as they were then
+                ktxt, vtxt = norm(c.func.value.slice), norm(elt)
+                extra = [norm(t) for t in a.generators[0].ifs if norm(t) not in (f"{ktxt} != {vtxt}", f"{vtxt} != {ktxt}")]
+                if extra and mname == "get_one_way_vertices":
+                    ctx.violation("K6", c, f"one-way edges are dropped from the stored adjacency table under {extra}: only self-loops (`{vtxt} != {ktxt}`) may be left out")
+                elif is_rep(kk) and is_rep(kv):
+                    ctx.ok("K6", f"EquivalenceDB.{mname}: {norm(c)[:70]} stores representatives")
+                else:
+                    which = "key" if not is_rep(kk) else "elements"
+                    ctx.violation("K6", c, f"the {which} stored in the one-way adjacency table by `{norm(c)[:70]}` are not normalised to their current representatives "
+                                  "(self[...]): after a merge, cycle detection walks stale vertices (and a stale vertex is never equal to the representative it is compared with)")
+            else:
+                kv = K.kind(a, f)
+                if not (is_rep(kk)):
+                    ctx.violation("K6", c, "the key of the one-way adjacency table is not a representative")
+                else:
+                    ctx.violation("K6", c, f"`{norm(c)[:70]}` copies a stored edge set as it is: its elements were representatives when they were stored, not necessarily now")
     if n < 2:
         ctx.floor("K6", 2)
 
